@@ -201,6 +201,54 @@ def check_ruleset_siblings(chk, prog):
                       f"the {arm} arm of run_rule_set orders its steps differently (materialization installed after the result block, stages run without roots, or a plan with an empty root still runs)", root.loc)
 
 
+def check_index_siblings(chk, prog):
+    """hash_index: the row-at-a-time path (add_row / merge_rows) and the sharded parallel path (merge_parallel) of ColumnIndex
+    and TupleIndex must build the same subsets."""
+    from ..util import guards
+    R = chk.rule("R-INDEX-SIBLINGS", "hash_index: (a) every merge_parallel drain that feeds BufferedSubset::add_row_sorted (which requires ascending row ids) first sorts the shard's queue of "
+                 "batches by their first row id (sort_by_key / sort_unstable_by_key on the drained vector dominates the drain); (b) ColumnIndex: both the serial add_row and the "
+                 "parallel split closure skip a value that already occurred in an earlier covered column of the same row (insertion guarded by `!keys[..i].contains(key)`), so a "
+                 "value's subset never holds a row id twice")
+    HI = "egglog_core_relations::hash_index::"
+    n_drain = 0
+    for f in prog.lib_fns(["egglog_core_relations"]):
+        root = f.root or f.name
+        if "hash_index" not in root or "merge_parallel" not in root:
+            continue
+        sorted_adds = [c for c in f.calls if c.p.endswith("BufferedSubset::add_row_sorted")]
+        drains = [c for c in f.calls if c.p.endswith("Vec::drain")]
+        if not sorted_adds or not drains:
+            continue
+        n_drain += 1
+        sorts = [c for c in f.calls if c.p.rsplit("::", 1)[-1] in ("sort_by_key", "sort_unstable_by_key", "sort_by", "sort_unstable_by", "sort", "sort_unstable", "sort_by_cached_key")]
+        ok = False
+        for d in drains:
+            dv = f.origins(d.args[0])
+            for sc in sorts:
+                if f.dominates(sc.bb, d.bb) and (f.origins(sc.args[0]) & dv):
+                    ok = True
+        chk.judge(ok, R, f"{root}:sorted-drain", "the shard's batches are sorted by first row id before being folded in",
+                  "merge_parallel folds the queued batches into add_row_sorted without sorting them by start row id first: batches arrive in task-completion order, so a value's "
+                  "subset ends up unsorted (binary searches and intersections on it silently miss rows)", d.loc)
+    chk.floor(R, n_drain, 2, "merge_parallel drains (ColumnIndex, TupleIndex)")
+    # (b) column dedup
+    n_dedup = 0
+    for f in prog.lib_fns(["egglog_core_relations"]):
+        root = f.root or f.name
+        if "ColumnIndex as" not in root or not (root.endswith("IndexBase>::add_row") or "IndexBase>::merge_parallel" in root):
+            continue
+        # insertion sites: add_row_sorted in add_row; TaggedRowBuffer::add_row on the per-shard split buffer in merge_parallel's split closure
+        sites = [c for c in f.calls if (root.endswith("::add_row") and c.p.endswith("BufferedSubset::add_row_sorted")) or
+                 ("merge_parallel" in root and c.p.endswith("TaggedRowBuffer::add_row"))]
+        for c in sites:
+            n_dedup += 1
+            ok = any(g.get("truth") is False and g["desc"][0] == "call" and g["desc"][1].p.endswith("::contains") for g in guards(f, c.bb))
+            chk.judge(ok, R, f"{root}:dedup-repeated-value", "a value repeated across the covered columns of a row is recorded once",
+                      "a row is added to a value's subset without the `earlier column already had this value` test: the subset holds the row id twice on this path only, "
+                      "and the serial and parallel index disagree", c.loc)
+    chk.floor(R, n_dedup, 2, "per-value insertion sites of ColumnIndex (add_row, merge_parallel split)")
+
+
 def run(chk, prog, tier):
     chk.explanation = EXPLANATION
     chk.assumptions = ["rustc nightly MIR construction", "thread-pool scope semantics are C19's"]
@@ -216,6 +264,7 @@ def run(chk, prog, tier):
     c14.check_container_indexed(chk, prog)
     check_cutoff_pure(chk, prog)
     check_ruleset_siblings(chk, prog)
+    check_index_siblings(chk, prog)
     # serial and parallel index construction / rebuild scans consume every batch alike
     from . import scan_common
     scan_common.check_scan_batches(chk, prog, only=lambda f: "hash_index" in f.name or "table::SortedWritesTable" in f.name or "containers" in f.name, floor=6)
